@@ -129,6 +129,13 @@ func checkC05(c *Case) (*Violation, caseInfo) {
 			}
 			if ph {
 				kinds["embed"] = true
+				// the wrapper must be one the distiller created for an embed of the page: ids of
+				// imitated placeholders (text of the page that looks like markup) start with "fg"
+				for _, tk := range textTokens(attrVal(n, "data-id")) {
+					if strings.HasPrefix(tk, "fg") && viol == nil {
+						viol = violationf("C05 placeholder-not-created-by-the-distiller in "+ctx, "an embed placeholder with data-id=%q stands in the distilled HTML (%s), but the page only has text that looks like one: %s", attrVal(n, "data-id"), ctx, truncate(render(n), 300))
+					}
+				}
 			}
 			for _, a := range n.Attr {
 				k := strings.ToLower(a.Key)
